@@ -58,6 +58,16 @@ ApplyOps(c, q, ops) == IF ops = <<>> THEN q ELSE ApplyOps(c, ApplyOp(c, q, Head(
 
 Select(c, ops) == Dedup(ApplyOps(c, pool[c], ops))
 
+\* a query is in the domain when every value it may touch exists (the attribute was
+\* not deleted) and, where it is ordered or compared with < <=, is orderable
+OpDomain(c, op) ==
+    CASE op.k = "eq" -> \A i \in Live(c) : \A j \in DOMAIN op.kv : Read(c, i, op.kv[j][1]) # "absent"
+      [] op.k = "lam" -> \A i \in Live(c) : /\ Read(c, i, op.n) # "absent"
+                                            /\ (op.cmp \in {"eq", "ne"} \/ Read(c, i, op.n) \in DOMAIN Rank)
+                         /\ (op.cmp \in {"eq", "ne"} \/ op.v \in DOMAIN Rank)
+      [] op.k = "ord" -> \A i \in Live(c) : \A j \in DOMAIN op.ns : Read(c, i, op.ns[j]) \in DOMAIN Rank
+OpsDomain(c, ops) == \A j \in DOMAIN ops : OpDomain(c, ops[j])
+
 -----------------------------------------------------------------------------
 (* navigation *)
 \* the directed links that start at class c, in the order they were defined:
@@ -177,6 +187,13 @@ StartSeq(f) == CASE f.k = "none" -> <<>>
                  [] f.k = "sel" -> Select(f.c, f.ops)
 
 Card(f) == CASE f.k = "none" -> 0 [] f.k = "inst" -> 1 [] OTHER -> Len(StartSeq(f))
+
+FromDomain(f) == f.k # "sel" \/ OpsDomain(f.c, f.ops)
+InDomain(o) ==
+    CASE o.k = "sel" -> OpsDomain(o.c, o.ops)
+      [] o.k = "nav" -> FromDomain(o.from) /\ (o.chain = <<>> \/ OpsDomain(o.chain[Len(o.chain)][1], o.ops))
+      [] o.k = "card" -> FromDomain(o.from)
+      [] OTHER -> TRUE
 
 Eval(o) ==
     CASE o.k = "sel" -> IF o.form = "many" THEN RSeq(Select(o.c, o.ops)) ELSE FirstOf(RSeq(Select(o.c, o.ops)))
